@@ -8,13 +8,16 @@ Transcribed (same branches, same order of writes):
 * `dataKey` = plain concatenation; `indexKey` = `path.Join(indexesPrefix, index, value)` INCLUDING the cleaning
   that `path.Join` performs (`pathClean`, rooted paths only: every key of the store starts with "/");
 * `Index.ValueOf` (unique: the value; otherwise `value + "/" + id`);
-* `GetTx`, `putTx` (exists / replace rules, data write, per index: new key, old key, write + old-key removal),
+* `GetTx`, `putTx` (exists / replace rules, the uniqueness check of every `Unique` index BEFORE any write —
+  `Exists(indexKey)`, `Get`, compare the stored id with the object's: another holder = `ErrUniqueIndexConflict` —,
+  data write, per index: new key, old key, write + old-key removal),
   `DeleteTx`, `list` (+ `DoListFunc`, reverse), `RebuildTx` (+ `deleteIndex`);
 * `DoUpdate`: begin, run, commit iff nil — with an injected fault at the n-th `Put`/`Delete` or at `Commit`;
 * Bolt: `kvPut` (B+tree insert/replace = sorted insert), `kvDel`, `kvGet`, `kvList` = `Seek(prefix)` followed by
   `Next()` while `HasPrefix` (so it relies on the keys being sorted).
 Abstracted: object encoding (`Val.obj o` stands for the versioned-JSON bytes of `o`, `Val.ref id` for the raw
-bytes of an id; a `ref` read back as an object is an unmarshal error), `ValueFunc` errors (never), nested
+bytes of an id; a `ref` read back as an object is an unmarshal error; the encoded bytes of an object are never
+equal to an id), `ValueFunc` errors (never), nested
 buckets, key/value size limits of bbolt, strings are lists of Unicode code points (valid UTF-8 only; code point
 order = byte order).
 Core Lean only.
@@ -149,6 +152,7 @@ inductive Err where
   | missing   -- ErrNoObjectExists
   | io        -- the injected fault
   | other     -- unmarshal error / ErrNoKeyExists
+  | conflict  -- ErrUniqueIndexConflict
 deriving DecidableEq, Repr, Inhabited
 
 inductive Fault where
@@ -181,6 +185,21 @@ def getTx (c : Cfg) (kv : KV) (id : Str) : Except Err Obj :=
   | some (.ref _) => .error .other
   | some .bucket => .error .missing         -- `Exists` is false for a nested bucket
 
+/-- What the uniqueness check of `putTx` finds under the entry key of a unique index: nothing (`Exists` is false
+for a missing key and for a nested bucket), the object's own id, or something else (`string(holder.Value) !=
+o.ObjectID()`: another id, or bytes that are no id at all). -/
+def heldByOther (v : Option Val) (id : Str) : Bool :=
+  match v with
+  | none => false
+  | some .bucket => false
+  | some (.ref r) => r != id
+  | some (.obj _) => true
+
+/-- The uniqueness loop of `putTx` (reads only; runs before the first write): does some `Unique` index already hold
+the object's value for ANOTHER object? -/
+def uniqueConflict (c : Cfg) (kv : KV) (o : Obj) : Bool :=
+  c.indexes.any (fun idx => idx.unique && heldByOther (kvGet kv (indexKey c idx.name (idx.valueOf o))) o.id)
+
 /-- The index loop of `putTx`. `old = some x` ⇔ `replacing`. -/
 def putIndexes (c : Cfg) (o : Obj) (old : Option Obj) : List Index → Tx → Except Err Tx
   | [], t => .ok t
@@ -201,6 +220,24 @@ def putIndexes (c : Cfg) (o : Obj) (old : Option Obj) : List Index → Tx → Ex
 
 /-- `IndexedStore.putTx`. -/
 def putTx (c : Cfg) (t : Tx) (o : Obj) (allowReplace requireReplace : Bool) : Except Err Tx :=
+  match getTx c t.kv o.id with
+  | .error .missing =>
+    if requireReplace then .error .missing
+    else if uniqueConflict c t.kv o then .error .conflict
+    else match t.put (dataKey c o.id) (.obj o) with
+      | .error e => .error e
+      | .ok t1 => putIndexes c o none c.indexes t1
+  | .error e => .error e
+  | .ok old =>
+    if !allowReplace then .error .exists_
+    else if uniqueConflict c t.kv o then .error .conflict
+    else match t.put (dataKey c o.id) (.obj o) with
+      | .error e => .error e
+      | .ok t1 => putIndexes c o (some old) c.indexes t1
+
+/-- `IndexedStore.putTx` as it was before the `fix:` commit that added the uniqueness check: a `Unique` index was
+never consulted, a second object with the same value overwrote the entry (kept for the counterexample theorem). -/
+def putTxOld (c : Cfg) (t : Tx) (o : Obj) (allowReplace requireReplace : Bool) : Except Err Tx :=
   match getTx c t.kv o.id with
   | .error .missing =>
     if requireReplace then .error .missing
